@@ -41,7 +41,7 @@ for s in idx['seeds']:
             'go test -vet=off -count=1 ./<demo pkg>/ -run Demo   (change reverted: must pass)',
         ],
         'demo_test_location': old.get('demo_test_location', ''),
-        'checks_procedure': 'git -C /repo apply seeded/%s/patch.diff; gosym check <prop> quick; git -C /repo checkout -- .' % s['id'],
+        'checks_procedure': 'git -C <tree> apply seeded/%s/patch.diff; gosym check <prop> quick; git -C <tree> checkout -- .   (<tree> = /repo, or - when tools/seeded_regress.sh runs several lanes side by side - a scratch worktree of /repo at the same commit passed as VERIF_REPO)' % s['id'],
         'checks': checks,
         'first_result': s.get('first_result', ''),
         'strengthening': s.get('strengthening', ''),
